@@ -54,6 +54,8 @@ RULE = ("Edwards point alphabet: k*B for k in {1,2,3,L-1,2^252,seeded} plus each
         "block/padding boundaries, thorough: every length 0..200; plus the 5 RFC 9380 messages) vs RFC 9380 encode_to_curve / "
         "hash_to_curve / hash_to_ristretto255; every map output must be in the prime-order (sub)group.")
 
+RULE = RULE + ' Fixed-base multiplications additionally on a base-only scalar alphabet (~1100 scalars: adjacent 32-bit word pairs over the nibble-carry alphabet at every word position, 0x77-rows with one deviating byte; thorough also 64-bit word pairs).'
+
 META = {
     "engine": "E-shape", "level": "exploration",
     "technique": "exhaustive cross-product enumeration of structured point / encoding / scalar / context alphabets on both field radices "
